@@ -18,7 +18,12 @@ namespace TIV.C14
 theorem generated_shape :
     Generated.syncOps = syncOps ∧ Generated.startOps = startOps ∧
     Generated.wrappedClass = "multiprocessing.process.BaseProcess" ∧
-    Generated.childAdoption = ["bootstrap", "import"] := by decide
+    Generated.childAdoption = ["bootstrap", "import"] ∧
+    -- the original `Process.start()` (possibly `os.fork()`) is called once, at the top level of the
+    -- wrapper: not inside any `with` (the model's `fk` comes after `rl` — the starting thread holds
+    -- no terminal lock at the fork), not under an `if` (every process object, daemonic or not, goes
+    -- through the hand-over), not inside a `try` (`Act.fail` undoes nothing)
+    Generated.startCallContext = ["<top>"] := by decide
 
 /-- CHILD CREATION is what `fk` says and nothing else: the hand-over is installed on
     `BaseProcess.start`, the adoption on `BaseProcess._bootstrap` (what every start method calls in
